@@ -2,7 +2,7 @@
    input alone: zero requested rewirings, or no edge at all, always RETURN the (re-indexed) input — the code's
    `itr *= k; for it in range(itr)` then has nothing to do — and n < 2 raises (ZeroDivisionError of max_attempts). *)
 From Coq Require Import ZArith List Arith Bool Lia QArith.
-From BCT Require Import Base.Mat Base.ListX Model.Components Model.Rewire Proofs.RewireSwap Proofs.RewireInv Proofs.RewireRun.
+From BCT Require Import Base.Mat Base.ListX Model.Components Model.Rewire Proofs.RewireSwap Proofs.RewireInv Proofs.RewireRun Proofs.RewireDiag.
 Import ListNotations.
 Open Scope Z_scope.
 
@@ -82,22 +82,23 @@ Proof.
   rewrite Ek, Hk. apply Nat.eqb_neq in Hm. rewrite Hm. reflexivity.
 Qed.
 
-(* randomize_graph_partial_und in the caller's vocabulary (what Good/Same say, spelled out) *)
+(* randomize_graph_partial_und in the caller's vocabulary (what Good/Same say, spelled out); the diagonal is carried over *)
 Theorem run_partial_caller n A B maxswap s0 res :
   run_partial_und n A B maxswap s0 = Done res ->
-  (forall x y, A x y = A y x) -> (forall x, A x x = 0) ->
+  (forall x y, A x y = A y x) ->
   (forall x, outdeg n (r_out res) x = outdeg n A x) /\
   (forall y, indeg n (r_out res) y = indeg n A y) /\
   (forall w, wcount n (r_out res) w = wcount n A w) /\
-  (forall x, r_out res x x = 0) /\
+  (forall x, r_out res x x = A x x) /\
   (forall x y, r_out res x y = r_out res y x) /\
   (maxswap = O -> r_out res = A).
 Proof.
-  intros H Hs Hd.
-  destruct (run_partial_good _ _ _ _ _ _ H Hs Hd) as (k & st & Eo & [HI HS] & _ & Hz).
-  destruct HS as [S1 S2 S3 S4 S5]. rewrite Eo.
-  split; [exact S1|]. split; [exact S2|]. split; [exact S3|].
-  split; [intros x; apply S4; apply Hd|].
-  split; [intros x y; apply (inv_sym _ _ _ _ HI eq_refl)|].
-  intros E. rewrite <- Eo. apply Hz. exact E.
+  intros H Hs.
+  destruct (run_partial_good _ _ _ _ _ _ H Hs) as (k & st & Eo & [HI HS] & _ & Hz).
+  destruct (run_partial_diag _ _ _ _ _ _ H Hs) as [Hdg _].
+  destruct HS as [S1 S2 S3 S4 S5].
+  split; [rewrite Eo; exact S1|]. split; [rewrite Eo; exact S2|]. split; [rewrite Eo; exact S3|].
+  split; [exact Hdg|].
+  split; [rewrite Eo; intros x y; apply (inv_sym _ _ _ _ HI eq_refl)|].
+  exact Hz.
 Qed.
